@@ -1,79 +1,174 @@
-"""C12 — timing wheel."""
+"""C12 — timing wheel (and the wheel seen through its clients collection.Cache and the cache cleaner)."""
+import os
+
 import vlib
 from runner import Property, ExecError
-from vlib import cz, clist
+from vlib import cz, clist, cbool, copt
+
+OVERLAY = {
+    # ADDED files (nothing of go-zero is replaced): a recording relay in front of a client's wheel
+    "core/collection/zz_verif_c12.go": os.path.join(vlib.HARNESS, "overlay", "collection", "zz_verif_c12.go"),
+    "core/stores/cache/zz_verif_c12.go": os.path.join(vlib.HARNESS, "overlay", "cache", "zz_verif_c12.go"),
+}
+
+RES = {0: "ROk", 1: "RErrArgument", 2: "RErrClosed", 3: "RPanic"}
+SEC = 1000000000
+T = [["tick"]]
 
 
 class C12(Property):
     id = "C12"
     title = "Timing wheel fires every timer exactly once, at its due tick"
-    quick_cases = 400
+    quick_cases = 420
     thorough_cases = 12000
     design_ref = "DESIGN.md §6/C12"
-    level_text = ("Unbounded Rocq theorems (every wheel size, interval, history of Set/Move/Remove/Tick/Drain): the wheel "
-                  "model refines the map key->(remaining ticks,value); a timer fires iff the operation is the "
-                  "floor(d/interval)-th tick after its last set/move, with the last value; removed timers never fire; "
-                  "Drain delivers each pending timer once. The model is tied to core/collection/timingwheel.go by "
-                  "differential execution of generated histories through the public API.")
-    level_note = ("Trusted: Coq kernel + vm_compute; hand-written model (flat entry list instead of per-slot linked lists, "
-                  "removed entries dropped at once); correspondence only on generated histories; callbacks attributed to an "
-                  "operation after goroutine quiescence; MoveTimer/SetTimer with delay < interval are compared with the "
-                  "model but are outside the property's quantifier.")
-    rule = ("histories: wheel size 1..12, 1..5 keys, 10..90 ops (tick/set/move/remove/drain), delays around 1, n-1, n, n+1, 2n, "
-            "random<=4n intervals; non-trivial = contains a Move of a pending key issued after the wheel wrapped and at "
-            "least one callback; distinct = canonical JSON hash of the history")
+    level_text = ("Unbounded Rocq theorems (every wheel size, interval, history of Set/Move/Remove/Tick/Drain/Stop calls, "
+                  "valid or rejected): the wheel model (flat and pointer-level) refines the map key->(remaining ticks,value); "
+                  "a timer fires iff the operation is the floor(d/interval)-th tick after its last set/move, with the last "
+                  "value, exactly once over the whole history; removed/drained timers never fire; Drain delivers each pending "
+                  "timer once; a stopped wheel is inert. The model is tied to core/collection/timingwheel.go by differential "
+                  "execution of generated histories through the public API, and through its clients collection.Cache (with and "
+                  "without WithLimit) and the cache cleaner, whose wheel traffic is recorded by a relay and judged both at the "
+                  "wheel level and at the client level (one timer per stored entry, none for deleted/evicted keys).")
+    level_note = ("Trusted: Coq kernel + vm_compute; hand-written models; correspondence only on generated histories; callbacks "
+                  "attributed to an operation after goroutine quiescence (stack inspection); the relay in front of a client's "
+                  "wheel is an added overlay file that depends on the names of TimingWheel's channels; MoveTimer/SetTimer with "
+                  "0 < delay < interval are compared with the model but are outside the property's quantifier.")
+    rule = ("wheel: size 1..12, 1..5 keys, 10..90 calls (tick/set/move/remove/drain/stop, nil keys, delays <= 0, panicking "
+            "callbacks), delays around 1, n-1, n, n+1, 2n, random<=4n intervals, rendezvous or timex.FakeTicker; "
+            "cache: limit 0..4, 6 keys, 10..70 operations (Set/SetWithExpire/Get/Del/Take/tick, Del-then-Set, expire-then-Set, "
+            "evict-then-Set patterns), final Drain; cleaner: AddCleanTask with 0..5 failures over up to 3970 ticks; "
+            "non-trivial = (wheel) a Move of a pending key after the wheel wrapped and a callback, (cache) a callback and a "
+            "removal request, (cleaner) a re-armed task; distinct = canonical JSON hash of the case")
     trusted_base = [
-        "model theories/C12/Model.v is hand-written; tie = correspondence run (harness/cmd/c12) on generated histories",
+        "models theories/C12/{Model,Concrete,Api}.v are hand-written; tie = correspondence run (harness/cmd/c12) on generated histories",
         "quiescence detection via runtime.Stack decides which operation a callback belongs to",
+        "harness/overlay/collection/zz_verif_c12.go (added, not replacing): relay goroutine in front of a client's wheel; "
+        "the client's wheel is rebuilt with NewTimingWheelWithTicker from the parameters and callback the client chose",
         "Go runtime (channels, goroutines), SafeMap and container/list are not modelled",
+        "cache kind: C16/ModelW.v (cache + LRU composed with this wheel model) is imported for `agrees`",
     ]
-    assumptions = ["keys are compared with Go == on int64 (model: Z)",
-                   "the wheel's event loop is sequential (one goroutine), so histories are sequences"]
+    assumptions = ["keys are compared with Go == on int64 / string (model: Z)",
+                   "the wheel's event loop is sequential (one goroutine): requests are atomic, in the order its select receives them"]
 
     def prepare(self, ctx):
-        ok, res = vlib.go_build("c12")
+        ok, res = vlib.go_build("c12", overlay=OVERLAY)
         self.bin = res if ok else None
         return ok, ("" if ok else res)
 
+    # ------------------------------------------------------------------ cases
     def corpus(self):
-        t = [["tick"]]
-        return [
+        w = lambda n, i, ops, tk="rv": {"kind": "wheel", "n": n, "interval": i, "ticker": tk, "ops": ops}
+        cs = [
             # F1: set behind the position after wrap, move shorter / longer
-            {"n": 10, "interval": 1000, "ops": t * 6 + [["set", 7, 70, 6000], ["move", 7, 2000]] + t * 14},
-            {"n": 10, "interval": 1000, "ops": t * 6 + [["set", 7, 70, 3000], ["move", 7, 16000]] + t * 18},
+            w(10, 1000, T * 6 + [["set", 7, 70, 6000], ["move", 7, 2000]] + T * 14),
+            w(10, 1000, T * 6 + [["set", 7, 70, 3000], ["move", 7, 16000]] + T * 18),
             # F12: set after drain of a pending key
-            {"n": 10, "interval": 1000, "ops": [["set", 1, 5, 3000], ["drain"], ["set", 1, 6, 5000]] + t * 12 + [["drain"]]},
-            {"n": 1, "interval": 7, "ops": [["set", 1, 5, 7], ["set", 2, 6, 21], ["move", 1, 14]] + t * 4},
-            {"n": 3, "interval": 10, "ops": [["set", 1, 5, 35], ["tick"], ["move", 1, 61], ["set", 1, 9, 45]] + t * 8},
+            w(10, 1000, [["set", 1, 5, 3000], ["drain"], ["set", 1, 6, 5000]] + T * 12 + [["drain"]]),
+            w(1, 7, [["set", 1, 5, 7], ["set", 2, 6, 21], ["move", 1, 14]] + T * 4),
+            w(3, 10, [["set", 1, 5, 35], ["tick"], ["move", 1, 61], ["set", 1, 9, 45]] + T * 8),
+            # seeds C12-1 / C12-2: re-slotted entry with circle / diff pending; relocation then move
+            w(5, 10, [["set", 1, 5, 120], ["move", 1, 20]] + T * 13, "fake"),
+            w(4, 10, [["set", 1, 5, 20], ["move", 1, 50]] + T * 2 + [["move", 1, 10]] + T * 6),
+            # rejected calls, Stop, calls on a closed wheel, a second Stop
+            w(3, 10, [["set", 1, 5, 30], ["set", None, 5, 30], ["set", 1, 6, 0], ["move", 1, -10], ["move", None, 30],
+                      ["remove", None], ["tick"], ["stop"], ["tick"], ["set", 2, 1, 30], ["move", 1, 30], ["remove", 1],
+                      ["drain"], ["set", 2, 1, 0], ["stop"]]),
+            w(3, 10, [["set", 1, 5, 30], ["stop"], ["tick"], ["drain"]], "fake"),
+            # a callback that panics does not keep the other timers of the tick from firing
+            w(4, 10, [["set", 1, 999, 20], ["set", 2, 7, 20], ["set", 3, 1999, 20], ["set", 4, 8, 60]] + T * 3 + [["drain"]]),
+            w(4, 10, [["set", 1, 999, 20], ["set", 2, 7, 20], ["drain"], ["set", 2, 7, 20]] + T * 3),
         ]
+        for (n, i, e) in [(0, 10, True), (-3, 10, True), (4, 0, True), (4, -1, True), (4, 1000000, False),
+                          (4, 1000000, True), (1, 1, True), (0, 0, False)]:
+            cs.append({"kind": "new", "n": n, "interval": i, "exec": e})
+        c = lambda limit, ops, exp=2500: {"kind": "cache", "limit": limit, "expire_ms": exp, "ops": ops + [["drain"]]}
+        s15, s25, s35 = 3 * SEC // 2, 5 * SEC // 2, 7 * SEC // 2
+        cs += [
+            # seed C12-3: Del then Set of the same key in a size-limited cache
+            c(10, [["setd", 9, 1], ["setd", 1, 10], ["del", 1], ["setd", 1, 11], ["get", 1]] + T * 3),
+            c(2, [["set", 1, 10, s15], ["tick"], ["tick"], ["set", 1, 11, s15], ["tick"], ["get", 1], ["tick"]]),
+            c(2, [["set", 1, 10, s15], ["set", 2, 20, s25], ["set", 3, 30, s35], ["set", 1, 12, s25]] + T * 4),
+            c(0, [["set", 1, 10, s15], ["del", 1], ["set", 1, 11, s25], ["take", 2, 5], ["take", 3, None]] + T * 3),
+            # refresh with a longer / shorter expiry, several revolutions of the 300-slot wheel
+            c(3, [["set", 1, 10, 2 * SEC], ["set", 1, 11, 700 * SEC], ["set", 2, 20, 301 * SEC]] + T * 305
+              + [["set", 1, 12, 3 * SEC]] + T * 4),
+        ]
+        # the cleaner's whole retry schedule: 1 s, 5 s, 1 min, 5 min, 1 h on a 300-slot wheel
+        cs.append({"kind": "cleaner", "ops": [["add", 0, 9], ["tick"], ["add", 1, 1]] + T * 3970})
+        return cs
 
     def gen(self, rng, n, tier):
         cases = []
-        for _ in range(n):
-            ns = rng.choice([1, 2, 3, 3, 4, 5, 6, 8, 10, 12])
-            interval = rng.choice([1, 7, 1000, 1000, 250000000])
-            nkeys = rng.randint(1, 5)
-            edge = rng.random() < 0.1
-            nops = rng.randint(10, 90)
-            ops = []
-            for _ in range(rng.randint(0, 2 * ns)):
-                if rng.random() < 0.6:
-                    ops.append(["tick"])
-            while len(ops) < nops:
-                r = rng.random()
-                k = rng.randrange(nkeys)
-                if r < 0.45:
-                    ops.append(["tick"])
-                elif r < 0.67:
-                    ops.append(["set", k, rng.randrange(1000), self._delay(rng, ns, interval, edge)])
-                elif r < 0.90:
-                    ops.append(["move", k, self._delay(rng, ns, interval, edge)])
-                elif r < 0.98:
-                    ops.append(["remove", k])
+        n_cache = (n * 2) // 5
+        n_clean = max(2, n // 100)
+        for _ in range(n - n_cache - n_clean):
+            cases.append(self._gen_wheel(rng))
+        for _ in range(n_cache):
+            cases.append(self._gen_cache(rng))
+        for _ in range(n_clean):
+            cases.append(self._gen_cleaner(rng))
+        return cases
+
+    def _gen_wheel(self, rng):
+        ns = rng.choice([1, 2, 3, 3, 4, 5, 6, 8, 10, 12])
+        interval = rng.choice([1, 7, 1000, 1000, 250000000])
+        nkeys = rng.randint(1, 5)
+        edge = rng.random() < 0.1
+        api = rng.random() < 0.35          # rejected calls, Stop
+        panics = rng.random() < 0.2
+        nops = rng.randint(10, 90)
+        ops = []
+        for _ in range(rng.randint(0, 2 * ns)):
+            if rng.random() < 0.6:
+                ops.append(["tick"])
+        stop_at = rng.randint(nops // 2, nops) if api and rng.random() < 0.5 else None
+        stopped = False
+        while len(ops) < nops:
+            r = rng.random()
+            k = rng.randrange(nkeys)
+            if stop_at is not None and len(ops) >= stop_at and not stopped:
+                ops.append(["stop"])
+                stopped = True
+                nops = min(nops, len(ops) + rng.randint(1, 6))
+                continue
+            if api and rng.random() < 0.12:
+                bad = rng.choice(["nilset", "nilmove", "nilremove", "zero", "neg", "zeromove"])
+                if bad == "nilset":
+                    ops.append(["set", None, rng.randrange(1000), self._delay(rng, ns, interval, False)])
+                elif bad == "nilmove":
+                    ops.append(["move", None, self._delay(rng, ns, interval, False)])
+                elif bad == "nilremove":
+                    ops.append(["remove", None])
+                elif bad == "zero":
+                    ops.append(["set", k, rng.randrange(1000), 0])
+                elif bad == "neg":
+                    ops.append(["set", k, rng.randrange(1000), -rng.randint(1, 3 * interval)])
+                else:
+                    ops.append(["move", k, rng.choice([0, -1, -interval])])
+                continue
+            if stopped and r < 0.45:
+                if rng.random() < 0.3:
+                    ops.append(["tick"])      # costs a timeout in the executor: keep them rare
+                elif rng.random() < 0.1:
+                    ops.append(["stop"])      # a second Stop panics
                 else:
                     ops.append(["drain"])
-            cases.append({"n": ns, "interval": interval, "ops": ops})
-        return cases
+                continue
+            v = rng.randrange(1000)
+            if panics and rng.random() < 0.3:
+                v = v - v % 1000 + 999
+            if r < 0.45:
+                ops.append(["tick"])
+            elif r < 0.67:
+                ops.append(["set", k, v, self._delay(rng, ns, interval, edge)])
+            elif r < 0.90:
+                ops.append(["move", k, self._delay(rng, ns, interval, edge)])
+            elif r < 0.98:
+                ops.append(["remove", k])
+            else:
+                ops.append(["drain"])
+        return {"kind": "wheel", "n": ns, "interval": interval, "ticker": rng.choice(["rv", "rv", "fake"]), "ops": ops}
 
     def _delay(self, rng, ns, interval, edge):
         steps = rng.choice([1, 1, 2, ns - 1, ns, ns + 1, 2 * ns, 2 * ns + 1, rng.randint(1, 4 * ns + 1)])
@@ -83,15 +178,92 @@ class C12(Property):
             d = rng.randrange(1, interval) if interval > 1 else 1
         return d
 
+    def _gen_cache(self, rng):
+        limit = rng.choice([0, 0, 1, 2, 2, 3, 4])
+        nkeys = rng.choice([2, 3, 4, 6])
+        expire_ms = rng.choice([1500, 2500, 2500, 3500, 10500])
+        sub = rng.random() < 0.05           # expiries below the wheel interval: outside the property
+        nops = rng.randint(10, 70)
+        ops = []
+
+        def expiry():
+            r = rng.random()
+            if sub and r < 0.3:
+                return rng.randint(SEC // 5, SEC * 9 // 10)
+            if r < 0.5:
+                return rng.randint(1, 6) * SEC + SEC // 2
+            if r < 0.9:
+                return rng.randint(SEC + SEC // 10, 12 * SEC)
+            return rng.randint(290, 700) * SEC
+
+        def setop(k):
+            v = rng.randrange(1000)
+            return ["setd", k, v] if rng.random() < 0.3 else ["set", k, v, expiry()]
+
+        while len(ops) < nops:
+            r = rng.random()
+            k = rng.randrange(nkeys)
+            if r < 0.08:                    # Del k; Set k again at once
+                ops += [["del", k], setop(k)]
+            elif r < 0.14:                  # let things expire, then Set again
+                ops += T * rng.randint(1, 4) + [setop(k)]
+            elif r < 0.20 and limit > 0:    # fill past the limit, then re-set the first (evicted) key
+                ks = [(k + j) % nkeys for j in range(min(nkeys, limit + 1))]
+                ops += [setop(x) for x in ks] + [setop(ks[0])]
+            elif r < 0.45:
+                ops.append(setop(k))
+            elif r < 0.55:
+                ops.append(["get", k])
+            elif r < 0.63:
+                ops.append(["del", k])
+            elif r < 0.72:
+                ops.append(["take", k, rng.randrange(1000) if rng.random() < 0.8 else None])
+            elif r < 0.97:
+                ops.append(["tick"])
+            else:
+                ops += T * rng.randint(5, 15)
+        return {"kind": "cache", "limit": limit, "expire_ms": expire_ms, "ops": ops + [["drain"]]}
+
+    def _gen_cleaner(self, rng):
+        ops = []
+        ntasks = rng.randint(1, 4)
+        tid = 0
+        total = rng.choice([20, 80, 80, 400])
+        while len(ops) < total:
+            if tid < ntasks and rng.random() < 0.1:
+                ops.append(["add", tid, rng.choice([0, 1, 2, 2, 3])])
+                tid += 1
+            else:
+                ops.append(["tick"])
+        if tid == 0:
+            ops.insert(0, ["add", 0, 2])
+        return {"kind": "cleaner", "ops": ops}
+
+    # ------------------------------------------------------------------ execution
     def execute(self, cases, ctx):
         rc, out, res = vlib.go_run(self.bin, cases, tag="c12", timeout=900)
         if rc != 0 or len(res) != len(cases):
             raise ExecError("c12 executor rc=%s: %s" % (rc, out[-2000:]))
-        for r in res:
+        obs = []
+        for c, r in zip(cases, res):
             if r.get("err"):
                 raise ExecError("c12 executor: case %s: %s" % (r.get("id"), r["err"]))
-        return [{"obs": r["obs"]} for r in res]
+            kind = c.get("kind", "wheel")
+            steps = r.get("obs") or []
+            if kind != "new" and len(steps) != len(c["ops"]):
+                raise ExecError("c12 executor: case %s: %d observations for %d operations" % (r.get("id"), len(steps), len(c["ops"])))
+            if any(s.get("r") not in RES for s in steps):
+                raise ExecError("c12 executor: case %s: unexpected error class" % r.get("id"))
+            o = {"obs": steps}
+            if kind == "new":
+                o["accepted"] = bool(r.get("accepted"))
+            if kind in ("cache", "cleaner"):
+                o["n"] = r.get("n")
+                o["interval"] = r.get("interval")
+            obs.append(o)
+        return obs
 
+    # ------------------------------------------------------------------ rendering
     def _op(self, o):
         if o[0] == "set":
             return "OSet %s %s %s" % (cz(o[1]), cz(o[2]), cz(o[3]))
@@ -103,37 +275,135 @@ class C12(Property):
             return "OTick"
         return "ODrain"
 
-    def coq_case(self, case, obs):
-        ops = clist([self._op(o) for o in case["ops"]])
-        ob = clist([clist(["(%s, %s)" % (cz(k), cz(v)) for k, v in f]) for f in obs["obs"]])
-        return "mkCase %s %s %s %s" % (cz(case["n"]), cz(case["interval"]), ops, ob)
+    def _key(self, k):
+        return "None" if k is None else "(Some %s)" % cz(k)
 
+    def _aop(self, o):
+        if o[0] == "set":
+            return "ASet %s %s %s" % (self._key(o[1]), cz(o[2]), cz(o[3]))
+        if o[0] == "move":
+            return "AMove %s %s" % (self._key(o[1]), cz(o[2]))
+        if o[0] == "remove":
+            return "ARemove %s" % self._key(o[1])
+        return {"tick": "ATick", "drain": "ADrain", "stop": "AStop"}[o[0]]
+
+    def _fired(self, f):
+        return clist(["(%s, %s)" % (cz(k), cz(v)) for k, v in f])
+
+    def _kop(self, o, expire_ns):
+        if o[0] == "set":
+            return "KSet %s %s %s" % (cz(o[1]), cz(o[2]), cz(o[3]))
+        if o[0] == "setd":
+            return "KSet %s %s %s" % (cz(o[1]), cz(o[2]), cz(expire_ns))
+        if o[0] == "get":
+            return "KGet %s" % cz(o[1])
+        if o[0] == "del":
+            return "KDel %s" % cz(o[1])
+        if o[0] == "take":
+            return "KTake %s %s %s" % (cz(o[1]), "None" if o[2] is None else "(Some %s)" % cz(o[2]), cz(expire_ns))
+        return {"tick": "KTick", "drain": "KDrain"}[o[0]]
+
+    def _trace(self, o, s):
+        t = [self._op(x) for x in (s.get("t") or [])]
+        if o[0] == "tick":
+            t = ["OTick"] + t
+        return clist(t)
+
+    def _ret(self, o, s):
+        ret = s.get("ret")
+        if o[0] == "get" and ret is not None:
+            return "(RetGet %s)" % ("None" if ret[0] is None else "(Some %s)" % cz(ret[0]))
+        if o[0] == "take" and ret is not None:
+            return "(RetTake %s %s)" % ("None" if ret[0] is None else "(Some %s)" % cz(ret[0]), cbool(ret[1]))
+        return "RetNone"
+
+    def coq_case(self, case, obs):
+        kind = case.get("kind", "wheel")
+        steps = obs["obs"]
+        if kind == "wheel":
+            ops = clist([self._aop(o) for o in case["ops"]])
+            ob = clist(["(%s, %s)" % (self._fired(s["f"]), RES[s["r"]]) for s in steps])
+            return "CWheel %s %s %s %s" % (cz(case["n"]), cz(case["interval"]), ops, ob)
+        if kind == "new":
+            r1 = RES[steps[0]["r"]] if steps else "ROk"
+            r2 = RES[steps[1]["r"]] if len(steps) > 1 else "ROk"
+            return "CNew %s %s %s %s %s %s" % (cz(case["n"]), cz(case["interval"]), cbool(case["exec"]),
+                                              cbool(obs["accepted"]), r1, r2)
+        if kind == "cache":
+            exp = case["expire_ms"] * 1000000
+            h = clist(["(%s, mkKobs %s %s %s %s)" % (self._kop(o, exp), self._trace(o, s), self._fired(s["f"]),
+                                                    clist([cz(k) for k in (s.get("keys") or [])]), self._ret(o, s))
+                       for o, s in zip(case["ops"], steps)])
+            return "CCache %s %s %s %s" % (cz(case["limit"]), cz(obs["n"]), cz(obs["interval"]), h)
+        segs = clist(["(%s, %s, %s)" % (self._trace(o, s), self._fired(s["f"]),
+                                        clist([cz(c[0]) for c in (s.get("c") or [])]))
+                      for o, s in zip(case["ops"], steps)])
+        return "CTrace %s %s %s" % (cz(obs["n"]), cz(obs["interval"]), segs)
+
+    # ------------------------------------------------------------------ evidence
     def nontrivial(self, case, obs):
+        kind = case.get("kind", "wheel")
+        fired = any(s.get("f") for s in obs["obs"])
+        if kind == "new":
+            return True
+        if kind == "cache":
+            return fired and any(x[0] == "remove" for s in obs["obs"] for x in (s.get("t") or []))
+        if kind == "cleaner":
+            return sum(1 for s in obs["obs"] for x in (s.get("t") or []) if x[0] == "set") > \
+                sum(1 for o in case["ops"] if o[0] == "add")
         ticks = 0
         pending = set()
         wrapped_move = False
         for o in case["ops"]:
             if o[0] == "tick":
                 ticks += 1
-            elif o[0] == "set":
+            elif o[0] == "set" and o[1] is not None and o[3] > 0:
                 pending.add(o[1])
             elif o[0] == "remove":
                 pending.discard(o[1])
             elif o[0] == "move" and o[1] in pending and ticks >= case["n"]:
                 wrapped_move = True
-        return wrapped_move and any(f for f in obs["obs"])
+            elif o[0] == "stop":
+                break
+        return wrapped_move and fired
 
     def features(self, case, obs):
-        fs = ["n=%d" % case["n"], "ops<=%d" % (10 * (1 + len(case["ops"]) // 10))]
-        kinds = set(o[0] for o in case["ops"])
-        fs += ["has_" + k for k in sorted(kinds)]
-        if any(o[0] in ("set", "move") and o[-1] < case["interval"] for o in case["ops"]):
-            fs.append("out_of_scope_delay")
-        fs.append("fired=%d" % min(9, sum(len(f) for f in obs["obs"])))
+        kind = case.get("kind", "wheel")
+        fs = ["kind=" + kind, "ops<=%d" % (10 * (1 + len(case.get("ops", [])) // 10))]
+        if kind == "wheel":
+            fs.append("n=%d" % case["n"])
+            fs.append("ticker=" + case.get("ticker", "rv"))
+            kinds = set(o[0] for o in case["ops"])
+            fs += ["has_" + k for k in sorted(kinds)]
+            if any(o[0] in ("set", "move") and 0 < o[-1] < case["interval"] for o in case["ops"]):
+                fs.append("out_of_scope_delay")
+            if any(s["r"] == 1 for s in obs["obs"]):
+                fs.append("has_ErrArgument")
+            if any(s["r"] == 2 for s in obs["obs"]):
+                fs.append("has_ErrClosed")
+            if any(v % 1000 == 999 for s in obs["obs"] for _, v in s["f"]):
+                fs.append("callback_panicked")
+        elif kind == "cache":
+            fs.append("limit=%d" % case["limit"])
+            if any(x[0] == "set" and x[3] < (obs.get("interval") or SEC) for s in obs["obs"] for x in (s.get("t") or [])):
+                fs.append("out_of_scope_delay")
+            if any(len([x for x in (s.get("t") or []) if x[0] == "remove"]) > 0 and o[0] in ("set", "setd", "take")
+                   for o, s in zip(case["ops"], obs["obs"])):
+                fs.append("evicting_set")
+        fs.append("fired=%d" % min(9, sum(len(s.get("f") or []) for s in obs["obs"])))
         return fs
 
     def describe_failure(self, case, obs):
-        return "a timer fired at a tick other than its due tick, twice, not at all, or a removed/drained timer fired"
+        kind = case.get("kind", "wheel")
+        if kind == "cache":
+            return ("collection.Cache: a stored entry has no pending timer in the wheel (or a deleted/evicted key still has one), "
+                    "or a timer fired at a tick other than its due tick, twice, with a stale value, or not at all")
+        if kind == "cleaner":
+            return "cache cleaner: a retry timer fired at a tick other than its due tick, twice or not at all"
+        if kind == "new":
+            return "NewTimingWheel accepted a configuration outside numSlots >= 1, interval >= 1, execute != nil (or rejected one inside)"
+        return ("a timer fired at a tick other than its due tick, twice, not at all, a removed/drained timer fired, "
+                "or a call returned the wrong error class")
 
 
 PROPERTY = C12()
